@@ -235,12 +235,33 @@ def main(tier):
             if caller.startswith(CLS + "::") or caller.startswith("operator<<"):
                 ck.ok("R-C14-2", key)
                 continue
-            # does the caller use the NON-const overload? (const overloads cannot edit)
+            # does the caller EDIT through the non-const overload?  (const overloads cannot edit; a non-const call whose
+            # result is only read - printed, compared, copied into a double - leaves the matrix alone and is not reported)
             uses_mut = False
             for f in prog.fns(caller):
-                for c in structq.calls_in(f):
-                    if structq.callee_of(c) == qn and not c.get("constm", False):
+                mut_calls = [c for c in structq.calls_in(f) if structq.callee_of(c) == qn and not c.get("constm", False)]
+                if not mut_calls:
+                    continue
+                ids = set(id(c) for c in mut_calls)
+                strip = lambda t: strip(t["e"]) if t.get("k") in ("Paren", "Cast", "ImplicitCast") and t.get("e") else t
+                for tgt, node in writes_in_expr(f["body"]):
+                    if id(strip(tgt)) in ids:
                         uses_mut = True
+                for n_ in ir.walk(f["body"]):
+                    # a mutable alias (reference/pointer bound to the accessor's result) or the result handed to a callee
+                    if n_.get("k") == "Decl":
+                        for v in n_["vars"]:
+                            if v.get("init") is not None and id(strip(v["init"])) in ids and v["t"].rstrip().endswith("&") and not v["t"].strip().startswith("const"):
+                                uses_mut = True
+                    if n_.get("k") == "Un" and n_.get("op") == "&" and id(strip(n_["e"])) in ids:
+                        uses_mut = True
+                    if n_.get("k") in ("Call", "Construct") and id(n_) not in ids:
+                        cal = prog.fns(structq.callee_of(n_))
+                        for i_, a in enumerate(n_.get("args", [])):
+                            if id(strip(a)) in ids:
+                                pt = cal[0]["params"][i_]["t"] if len(cal) == 1 and i_ < len(cal[0]["params"]) else "?"
+                                if pt == "?" or (pt.rstrip().endswith("&") and not pt.strip().startswith("const")) or pt.rstrip().endswith("*"):
+                                    uses_mut = True
             if not uses_mut:
                 ck.ok("R-C14-2", key)
                 continue
